@@ -198,6 +198,33 @@ def gen_specs(rep, tier):
             els, k2, els2 = big_frame(kind, m)
             spec(kind, els, k2, els2, 'g',
                  [['from_delayed', [0, m // 2, m]], ['pack_to_parquet', nparts]], keys)
+    # B3. bounds= that really drops partitions, two geometry columns, non-active column used,
+    #     written back and re-read
+    for kind in (['point', 'line', 'polygon'] if quick else G.KINDS):
+        els = template(kind, 0)
+        k2, els2 = second_column(kind)
+        singles = ['from_delayed', [0, 1, 2, 3, 4, 5, 6]]
+        for act, geom, bx in (('g', None, [2, 2, 4, 4]), ('h', 'h', [0, 0, 3, 3]),
+                              ('g', 'g', [6.5, 0, 8, 1.5])):
+            spec(kind, els, k2, els2, act, [singles, ['parquet', geom, bx]], KEYS[:3])
+        spec(kind, els, k2, els2, 'g', [singles, ['parquet', None, [2, 2, 4, 4]],
+                                        ['parquet', None, None]], KEYS[:3])
+        spec(kind, els, k2, els2, 'g', [singles, ['parquet', None, [2, 2, 4, 4]],
+                                        ['parquet', 'h', None]], KEYS[:3])
+    # B4. coordinates in the millions, neighbouring boxes that agree in their first six
+    #     significant digits, several lazy queries alive at once
+    OFF = 5000000
+    far_keys = [tuple(OFF + v for v in k) for k in
+                ((2, 6, 2, 6), (1.5, 4.5, 0.5, 3.5), (3, 4, 3, 4), (6, 9, 6, 9))]
+    for kind in (['point', 'line', 'multipolygon'] if quick else G.KINDS):
+        els = template(kind, 0)
+        k2, els2 = second_column(kind)
+        base = ['from_delayed', rng.choice([[0, 2, 4, 6], [0, 3, 6], [0, 1, 2, 3, 4, 5, 6]])]
+        for steps in ([base], [base, ['set_geometry', 'h']], [base, ['pack', 2, 15]],
+                      [base, ['cache'], ['filter_isin', [0, 2, 3, 5]]]):
+            specs.append({'kind_g': kind, 'els_g': els, 'kind_h': k2, 'els_h': els2,
+                          'active': 'g', 'steps': steps, 'keys': [list(k) for k in far_keys],
+                          'offset': OFF, 'lazy': True})
     # C. random frames, random splits, random provenance
     for _ in range(40 if quick else 800):
         kind = rng.choice(G.KINDS)
@@ -233,6 +260,9 @@ def rand_key(rng):
 # --------------------------------------------------------------------------
 # provenance
 # --------------------------------------------------------------------------
+ctx_counts = []
+
+
 class Unclaimed(Exception):
     """the provenance step raised where the property claims nothing"""
 
@@ -291,7 +321,10 @@ def apply_steps(df, steps, tmpdirs):
             if st[2] is not None:
                 kw['bounds'] = tuple(st[2])
                 expect = None
+            nbefore = len(X.to_delayed())
             X = read_parquet_dask(path, **kw)
+            if st[2] is not None and len(X.to_delayed()) < nbefore:
+                ctx_counts.append('bounds=-dropped-partitions')
             if st[1] is None and expect is not None:
                 # which column is active after a plain read is C11 / C20's business
                 expect = expect.set_geometry(U.active_name(X))
@@ -530,6 +563,14 @@ def check_frame(ctx, X, spec, expect, ordered, index_kept):
                             per_key))
         ctx.metas.append(spec)
 
+    # ---- every geometry column, not only the active one (column selection ddf[c])
+    if last in ('parquet', 'pack_to_parquet') or rep.evaluations % 4 == 0:
+        check_all_geometry_columns(ctx, X, ref, parts, spec, last)
+
+    # ---- several lazy cx queries over the same partitions
+    if spec.get('lazy') or rep.evaluations % 6 == 0:
+        check_lazy_queries(ctx, X, ref, spec, last, used_keys)
+
     # ---- sjoin (the left geometry must be points: intersects() exists for PointArray only)
     kind_active = spec['kind_g'] if an == 'g' else spec['kind_h']
     if kind_active == 'point' and 'g' in ref.columns and 'h' in ref.columns:
@@ -582,6 +623,95 @@ def check_frame(ctx, X, spec, expect, ordered, index_kept):
             ctx.sj_metas.append({**spec, 'how': how, 'right': rname})
 
 
+def check_all_geometry_columns(ctx, X, ref, parts, spec, last):
+    from spatialpandas.geometry.base import GeometryDtype
+    rep = ctx.rep
+    for c in ref.columns:
+        if not isinstance(ref[c].dtype, GeometryDtype):
+            continue
+        rep.count('column-series-checked')
+        try:
+            s = X[c]
+            pb = np.asarray(s.partition_bounds.values, dtype='float64').reshape(-1, 4)
+            direct = np.array([list(p[c].total_bounds) for p in parts],
+                              dtype='float64').reshape(-1, 4)
+            if len(pb) != len(parts) or not U.same_floats(pb, direct):
+                viol(ctx, 'column-partition_bounds-differ:' + last,
+                     f'ddf[{c!r}].partition_bounds has {len(pb)} rows / differs from the extents '
+                     f'of column {c!r} in the {len(parts)} partitions', spec, column=c,
+                     partition_bounds=pb.tolist(), direct=direct.tolist())
+                continue
+            tb = tuple(float(v) for v in s.total_bounds)
+            rtb = tuple(float(v) for v in ref[c].total_bounds)
+            if not U.same_floats(tb, rtb):
+                viol(ctx, 'column-total_bounds-differ:' + last,
+                     f'ddf[{c!r}].total_bounds {tb}, pandas {rtb}', spec, column=c)
+            for key in spec['keys'][:2]:
+                key = tuple(key)
+                rb = U.resolve_key(key, rtb)
+                if rb[0] == rb[2] or rb[1] == rb[3]:
+                    continue
+                xs, ys = U.key_slices(key)
+                d = s.cx[xs, ys].compute()
+                r = ref[c].cx[xs, ys]
+                if U.frame_sig(d) != U.frame_sig(r):
+                    viol(ctx, 'column-cx-differs:' + last,
+                         f'ddf[{c!r}].cx[{key}] differs from the pandas series', spec, column=c,
+                         key=key)
+                got = set(s.cx_partitions[xs, ys].compute().index.tolist())
+                if not set(r.index.tolist()) <= got:
+                    viol(ctx, 'column-cx_partitions-misses-row:' + last,
+                         f'ddf[{c!r}].cx_partitions[{key}] lacks intersecting rows', spec,
+                         column=c, key=key)
+        except Exception as e:
+            viol(ctx, 'column-series-raises:' + last,
+                 f'using ddf[{c!r}] raised {type(e).__name__}: {str(e)[:200]} while pandas works',
+                 spec, column=c)
+
+
+def check_lazy_queries(ctx, X, ref, spec, last, keys):
+    """build all queries first, then compute them together / concatenated / later"""
+    import dask
+    import dask.dataframe as dd
+    import pandas as pd
+    rep = ctx.rep
+    keys = [tuple(k) for k in keys][:4]
+    if len(keys) < 2:
+        return
+    rep.count('lazy-queries-checked')
+    sl = [U.key_slices(k) for k in keys]
+    want = [ref.cx[xs, ys] for xs, ys in sl]
+    wsig = [U.frame_sig(w) for w in want]
+    try:
+        qs = [X.cx[xs, ys] for xs, ys in sl]
+        ss = [X.geometry.cx[xs, ys] for xs, ys in sl]
+        together = dask.compute(*qs)
+        stog = dask.compute(*ss)
+        cat = dd.concat(qs).compute()
+        later = [q.compute() for q in reversed(qs)][::-1]
+    except Exception as e:
+        viol(ctx, 'lazy-cx-raises:' + last, f'{type(e).__name__}: {str(e)[:200]}', spec)
+        return
+    for name, got in (('computed-together', together), ('computed-later', later)):
+        for k, g, w in zip(keys, got, wsig):
+            if U.frame_sig(g) != w:
+                viol(ctx, f'lazy-cx-differs:{name}:' + last,
+                     f'several lazy ddf.cx queries {name}: cx[{k}] returns rows '
+                     f'{g["v"].tolist()}, pandas has {len(w)} rows',
+                     spec, key=k, keys=keys)
+                break
+    for k, g, (xs, ys) in zip(keys, stog, sl):
+        if U.frame_sig(g) != U.frame_sig(ref.geometry.cx[xs, ys]):
+            viol(ctx, 'lazy-series-cx-differs:' + last,
+                 f'several lazy ddf.geometry.cx queries computed together: cx[{k}] differs from '
+                 'pandas', spec, key=k, keys=keys)
+            break
+    if U.frame_sig(cat) != sum(wsig, []):
+        viol(ctx, 'lazy-cx-differs:concat:' + last,
+             'dd.concat of several lazy ddf.cx results differs from the concatenation of the '
+             'pandas results', spec, keys=keys)
+
+
 def quick_ops(rep):
     return getattr(rep, 'tier_run', rep.tier) == 'quick'
 
@@ -591,13 +721,17 @@ def run_spec(ctx, spec):
     rep = ctx.rep
     tmpdirs = []
     try:
-        df = U.make_frame(spec['kind_g'], spec['els_g'], spec['kind_h'], spec['els_h'],
+        off = spec.get('offset', 0)
+        df = U.make_frame(spec['kind_g'], [U.shift(e, off) for e in spec['els_g']],
+                          spec['kind_h'], [U.shift(e, off) for e in spec['els_h']],
                           active=spec['active'])
         try:
             X, expect, ordered, index_kept = apply_steps(df, spec['steps'], tmpdirs)
         except Unclaimed as e:
             rep.count('unclaimed:' + str(e)[:40])
             return
+        while ctx_counts:
+            rep.count(ctx_counts.pop())
         check_frame(ctx, X, spec, expect, ordered, index_kept)
     finally:
         for d in tmpdirs:
